@@ -11,7 +11,10 @@ Definition called_names (ns : list pnode) (handlers : list (wth str)) : list (wt
 (* (a) A node is a function entry exactly when one of the labels in front of the instruction that
    follows it is a called name; a label owns a function exactly when it sits on such an entry. *)
 Definition C11_entries_statement : Prop :=
-  forall ns handlers g, cfg_new ns (Some handlers) = inr g ->
+  forall ns handlers g,
+    (* parsed programs contain no function-entry nodes of their own (they are created here) *)
+    (forall n, In n ns -> is_function_entry n = false) ->
+    cfg_new ns (Some handlers) = inr g ->
     forall i c, node_at g i c ->
       (is_function_entry (cn c) = true -> any_in (clabels c) (called_names ns handlers) = true) /\
       (is_function_entry (cn c) = false -> any_in (clabels c) (called_names ns handlers) = false).
@@ -36,7 +39,11 @@ Definition C11_body_statement : Prop :=
   forall picks ns g, gen_full_cfg picks ns = Ok (SOk g) ->
     forall fid f, nth_opt (gfuncs g) fid = Some f ->
       (forall i c, node_at g i c -> (In fid (cfuncs c) <-> In i (fnodes f))) /\
-      (forall i, In i (fnodes f) -> reaches g (fentry f) i) /\
+      (* listed nodes are reachable in the FINISHED graph unless an exit ecall inside the body cut the
+         flow after the function was marked (the unguarded form holds right after the markup pass:
+         C11_fn_body_markup below) *)
+      ((forall i c, In i (fnodes f) -> node_at g i c -> is_program_exit c = false) ->
+       forall i, In i (fnodes f) -> reaches g (fentry f) i) /\
       In (fentry f) (fnodes f) /\ In (fexit f) (fnodes f) /\
       (exists c, node_at g (fentry f) c /\ is_function_entry (cn c) = true) /\
       (no_sharing g -> forall i, reaches g (fentry f) i -> In i (fnodes f)).
@@ -49,7 +56,10 @@ Print Assumptions C11_fn_body.
    instruction the exit IS a return, and every other former return of the body is now a merge
    jump whose only successor is the exit. *)
 Definition C11_exit_statement : Prop :=
-  forall picks ns g, gen_full_cfg picks ns = Ok (SOk g) ->
+  forall picks ns g,
+    (* nobody wrote `jal x0, __return__` by hand (the spelling of a merged return) *)
+    (forall n, In n ns -> is_return_merge n = false) ->
+    gen_full_cfg picks ns = Ok (SOk g) ->
     forall fid f, nth_opt (gfuncs g) fid = Some f ->
       (forall i c, In i (fnodes f) -> node_at g i c -> is_return (cn c) = true -> i = fexit f) /\
       (no_sharing g -> exists c, node_at g (fexit f) c /\ is_return (cn c) = true) /\
@@ -76,3 +86,17 @@ Theorem C11_overlap_reported_iff : C11_overlap_statement.
 Proof. exact overlap_reported_iff. Qed.
 Check C11_overlap_reported_iff : C11_overlap_statement.
 Print Assumptions C11_overlap_reported_iff.
+
+(* extra: the body statement exactly as originally written holds for the stage-8 graph *)
+Definition C11_body_markup_statement : Prop :=
+  forall picks ns g, gen_cfg_upto 8 picks ns = Ok (SOk g) ->
+    forall fid f, nth_opt (gfuncs g) fid = Some f ->
+      (forall i c, node_at g i c -> (In fid (cfuncs c) <-> In i (fnodes f))) /\
+      (forall i, In i (fnodes f) -> reaches g (fentry f) i) /\
+      In (fentry f) (fnodes f) /\ In (fexit f) (fnodes f) /\
+      (exists c, node_at g (fentry f) c /\ is_function_entry (cn c) = true) /\
+      (no_sharing g -> forall i, reaches g (fentry f) i -> In i (fnodes f)).
+Theorem C11_fn_body_markup : C11_body_markup_statement.
+Proof. exact fn_body_markup. Qed.
+Check C11_fn_body_markup : C11_body_markup_statement.
+Print Assumptions C11_fn_body_markup.
